@@ -5,6 +5,7 @@ import Ruint.Lemmas.Codec.Fixed
 import Ruint.Lemmas.Codec.Der
 import Ruint.Lemmas.Codec.Serde
 import Ruint.Lemmas.Codec.Postgres
+import Ruint.Lemmas.Codec.PostgresNumeric
 /-!
 # C16 — every codec integration round-trips and emits its format's reference encoding
 
@@ -152,12 +153,14 @@ theorem from_str_quantity (bits v : ℕ) (hv : v < 2 ^ bits) : Serde.fromStr bit
 
 /-! ## postgres -/
 
-/-- for every non-float column type whose `to_sql` of the value succeeds, `from_sql(to_sql v) = v`
-    (BOOL, INT2, INT4, OID, INT8, MONEY, BYTEA, BIT, VARBIT, CHAR, TEXT, VARCHAR, JSON, JSONB).
-    Full statement incl. NUMERIC: `∀ ty, toSql ty bits v = some e → fromSql ty bits e = .ok v`; the NUMERIC arm
-    (base-10000 digit loop with trailing-zero trimming) is checked by the correspondence only. -/
-theorem pg_roundtrip_partial (ty : Pg.Ty) (bits v : ℕ) (e : List ℕ) (hv : v < 2 ^ bits) (hty : ty ≠ .numeric)
-    (h : Pg.toSql ty bits v = some e) : Pg.fromSql ty bits e = .ok v := Pg.roundtrip ty bits v e hv hty h
+/-- for EVERY non-float column type whose `to_sql` of the value succeeds, `from_sql(to_sql v) = v`
+    (BOOL, INT2, INT4, OID, INT8, MONEY, BYTEA, BIT, VARBIT, CHAR, TEXT, VARCHAR, JSON, JSONB, NUMERIC — the last
+    through the base-10000 digit loop, trailing-zero trimming and weight). -/
+theorem pg_roundtrip (ty : Pg.Ty) (bits v : ℕ) (e : List ℕ) (hv : v < 2 ^ bits)
+    (h : Pg.toSql ty bits v = some e) : Pg.fromSql ty bits e = .ok v := by
+  by_cases hty : ty = .numeric
+  · subst hty; exact Pg.numeric_roundtrip bits v e hv h
+  · exact Pg.roundtrip ty bits v e hv hty h
 
 /-! ## limb-array identities: num-bigint, primitive-types, ark-ff, bytemuck -/
 
